@@ -405,7 +405,9 @@ func c05Programs(r *findings.Run) (progs []*Prog, names []string) {
 		}
 	}
 	// the cross-feature space (cross.go): statements of all fragments crossed with every context / with each other
-	for _, cp := range crossReduced(r.Thorough()) {
+	// (pairs also inside an if branch and a loop body: cmd.exe reads a parenthesised block as a whole, so two
+	// statements of one block instance share one %-expansion)
+	for _, cp := range crossReduced(r.Thorough(), "if", "for3x2") {
 		add("cross "+cp.name, cp.prog)
 	}
 	// panic inside a function followed by more top-level code
